@@ -3,12 +3,14 @@ import re
 
 
 def peer_nontrivial(tok, res):
-    if tok[0] in ("login", "ologin"):
-        return res != "seterr"           # both outcomes matter (accepted with a good key / refused with a bad one)
-    if tok[0] in ("work", "owork"):
+    if tok[0] in ("login", "ologin", "tlogin"):
+        return res not in ("seterr", "notok")   # both outcomes matter (accepted with a good key / refused with a bad one)
+    if tok[0] in ("work", "owork", "twork"):
         return res.startswith("pooled") or res.startswith("refused")
-    if tok[0] in ("ping", "oping"):
+    if tok[0] in ("ping", "oping", "tping"):
         return res.startswith("pong")
+    if tok[0] == "uconn":
+        return res.startswith("e1") or res == "e0"
     if tok[0] == "ssh":
         return res.startswith("up:") or res in ("authfail", "closed")
     return False
@@ -20,6 +22,8 @@ def peer_class(res):
     if res.startswith("up:"):
         p = res.split(":")
         return "up(ap=%s,%s)" % (p[3], p[4]) if len(p) == 5 else "up?"
+    if res.startswith("e1:") or res.startswith("e0:"):
+        return res[:2]
     if res.startswith("x") or res == "empty":
         return "table(%d)" % (0 if res == "empty" else res.count(";") + 1)
     return res[:16]
@@ -47,14 +51,22 @@ PROP = {
             "Frp.C04.gw_up_needs", "Frp.C04.gw_noauth_needs_token", "Frp.C04.net_never_internal",
             "Frp.C04.gw_allCfg", "Frp.C04.sys_alwaysPass_only_by_authorized_key",
             "Frp.C04.model_holdsOn_login_oidc", "Frp.C04.model_holdsOn_ssh", "Frp.C04.source_facts_gateway",
+            "Frp.C04.sigOkAt_iff", "Frp.C04.expired_none", "Frp.C04.unpublished_none",
+            "Frp.C04.stale_login_refused", "Frp.C04.stale_ping_refused", "Frp.C04.stale_work_refused",
+            "Frp.C04.replay_refused_after_any_history", "Frp.C04.cache_provenance", "Frp.C04.rotated_key_refused",
+            "Frp.C04.login_reply_depends", "Frp.C04.ping_reply_depends", "Frp.C04.work_reply_depends",
+            "Frp.C04.timed_login_depends", "Frp.C04.timed_ping_depends", "Frp.C04.timed_work_depends",
+            "Frp.C04.refused_no_residue_timed",
+            "Frp.C04.user_served_from_pool", "Frp.C04.pooled_step", "Frp.C04.pooled_only_by_accepted_work",
+            "Frp.C04.user_served_by_checked_conn", "Frp.C04.model_holdsOn_user",
         ],
         "engines": [
-            {"name": "peer", "quick_n": 6000, "thorough_n": 30000, "thorough_seeds": 5,
-             "search_n": 6000, "search_seeds": 3,
+            {"name": "peer", "quick_n": 8000, "thorough_n": 32000, "thorough_seeds": 5,
+             "search_n": 8000, "search_seeds": 3,
              "nontrivial": peer_nontrivial, "result_class": peer_class},
         ],
-        "rule": "peer engine: a real server.Service on loopback per episode, 12 kinds in turn: token auth with every subset "
-                "of the scopes {HeartBeats, NewWorkConns}; 2 of 12 with a stub OIDC verifier; 2 of 12 with auth.method=oidc "
+        "rule": "peer engine: a real server.Service on loopback per episode, 16 kinds in turn: token auth with every subset "
+                "of the scopes {HeartBeats, NewWorkConns}; 2 of 16 with a stub OIDC verifier; 2 of 16 with auth.method=oidc "
                 "for real (the verifier NewService builds itself: auth.NewTokenVerifier -> go-oidc discovery + remote JWKS "
                 "against an in-process OpenID provider on loopback; every key of these episodes is fetched by the real frpc "
                 "side auth.NewOidcAuthSetter.SetLogin/SetPing/SetNewWorkConn from the provider's client-credentials "
@@ -67,7 +79,25 @@ PROP = {
                 "removed, made unparsable, duplicate lines between connections; authorizedKeysFile not configured "
                 "(NoClientAuth) with right / wrong / no --token; tcp --remote_port 0 / stcp commands, unsupported type, "
                 "bad flag, proxy name clashes; a user connection through the tcp proxy echoed by the ssh client; network "
-                "and internal work connections naming gateway sessions). The harness is a raw peer using the real codec "
+                "and internal work connections naming gateway sessions); TIME AND PROVIDER STATE in the OIDC episodes: "
+                "tokens are minted once (omint), kept and presented again on all three paths (tlogin / tping / twork) "
+                "while the provider's JWKS document changes between messages (okeys: k1, k2, both, none, request fails; "
+                "tokens signed with the second key; go-oidc's key cache is part of the model state) and the clock moves "
+                "(oclock); every O episode runs a key-rotation scenario (valid -> key withdrawn, still cached -> cache "
+                "refreshed by a token of the new key -> refused -> key published again), every other one a token that "
+                "lives 3 s and a real wait; 2 of 16 episodes (C) run go-oidc's verifier with the configuration "
+                "NewTokenVerifier builds plus an injected clock (oidc.Config.Now) inside frp's real OidcAuthConsumer, "
+                "so the second of exp, exp+1, the nbf leeway and +1 h are hit exactly; SIEGES: 2 of 16 episodes (token, "
+                "stub OIDC) are nothing but runs of 64-111 (1 in 8: 256-319) consecutive refused operations of one kind "
+                "or mixed - NewWorkConn with bad keys naming ONE live session, NewWorkConn for unknown run ids, Login with "
+                "bad keys naming that session's run id / none / others, NewVisitorConn, Ping with bad keys on its own "
+                "control connection, other first messages and malformed frames - as streams of one connection, each on "
+                "a tcp connection of its own (transport tcpn), or over all transports; the tables are dumped before "
+                "and after (must be equal), then the besieged session must answer a heartbeat, take a valid work "
+                "connection and carry a user connection through its tcp proxy (tproxy / uconn: a real connection to the "
+                "remote port, echoed by the harness on the pooled work connection frps chose); the same sieges start "
+                "with low probability inside every other episode, and OIDC episodes run sieges of one stale token "
+                "(expired / key withdrawn) replayed on the three paths. The harness is a raw peer using the real codec "
                 "over the real client connector (tcp, tls, websocket, kcp, quic; yamux/quic streams) and over the internal "
                 "listener; after every op the session table (run id, verifier kind, pool, cap, accepted pings, proxies) "
                 "is dumped through a verif hook and compared with the model. Non-trivial = logins, work connections that "
@@ -88,6 +118,10 @@ PROP = {
             "the ssh handshake itself is golang.org/x/crypto/ssh (server and client): the model's SshAuth.pubkey k proved "
             "abstracts 'the client signed with the private key of k'; tied by the S episodes (real gateway, real ssh client)",
             "the harness's OpenID provider and ssh client (harness/eng_peer_auth.go) are test doubles written for this check",
+            "go-oidc's RemoteKeySet (cached keys first, refetch and replace on a miss, nothing on a failed fetch) is modelled "
+            "from coreos/go-oidc v3.14.1 jwks.go (AuthGate.sigOkAt / cacheAfterSig / cacheAfterVerify); tied by the O and C "
+            "episodes, whose results depend on it; in C episodes the verifier is built by the harness (same oidc.Config as "
+            "auth.NewTokenVerifier plus Now) and installed through VerifAuthSetVerifier inside auth.NewOidcAuthVerifier",
             "translator translate/gen_authgatefacts.go (go/ast): regenerates Frp/Gen/AuthGateFacts.lean on every run - the bypass "
             "condition in RegisterControl, every internal-argument of HandleListener/handleConnection/RegisterControl calls, "
             "every write and read of ClientSpec.AlwaysAuthPass, the value of ssh NoClientAuth, every reference to "
@@ -108,9 +142,15 @@ PROP = {
             "concurrent logins appending to OidcAuthConsumer.subjectsFromLogin without a lock (DESIGN 7 #18) are not modelled",
             "OIDC: subjectsFromLogin is one list per server, never shortened: 'the login's subject' means the subject of ANY "
             "accepted login since frps started (theorem subjects_only_from_logins), not of the session the ping arrives on",
-            "OIDC: time is one abstract clock (Prim.now) in the unit of the exp/nbf claims; the engine uses tokens one hour "
-            "before / after now and an nbf two minutes ahead, nothing near the boundaries; go-oidc's Google issuer exception "
-            "is in the model but cannot be driven offline (discovery insists on the issuer URL)",
+            "OIDC: time is a clock per message (Moment.now) in the unit of the exp/nbf claims; with the real clock (O "
+            "episodes) the engine stays a second or more away from every boundary (tokens of 3 s, waits until exp + 1 s), "
+            "the boundaries themselves are driven with the injected clock (C episodes); a failed JWKS request is modelled "
+            "as 'no key verifies, cache kept'; go-oidc stores a fetched key set a moment after answering (the engine lets "
+            "1 ms pass after changing the provider's keys); go-oidc's Google issuer exception is in the model but cannot "
+            "be driven offline (discovery insists on the issuer URL)",
+            "user connections: the pool is FIFO in frps; the engine is relational (the harness reports which pooled "
+            "connection was joined, the model checks that it was in the owning session's pool and drops what was queued "
+            "before it); with an empty pool frps waits userConnTimeout (1 s in the engine) for the client to bring one",
             "ssh gateway: a connection that never sends a forward request and an exec command is closed after 3 s by "
             "TunnelServer.Run; not driven (the model maps it to 'closed' like an unparsable command); the virtual client runs "
             "with frpc defaults (pool 1, no heartbeats under tcpMux), which is what the gateway hard-codes",
@@ -120,7 +160,7 @@ PROP = {
 META = {
         "engine": "lean+harness(peer)",
         "design_ref": "DESIGN.md §6 C04",
-        "technique": "Lean 4 model of the first-message dispatcher and heartbeat handler with abstract key function, the claim-level decision of the OIDC verifier (signature abstract) and the ssh tunnel gateway as the only producer of internal connections; theorems for all states, messages, plugin behaviours, and by induction over all event histories / refused bursts / system histories of network events and ssh tunnels; differential correspondence against a real server.Service driven as a raw network peer over five transports and the internal listener, as a real OIDC client of an in-process provider, and as a real ssh client of the gateway",
-        "text": "Proof: a login is answered with success and a session appears only if the verifier RegisterControl selected accepted the login the plugins handed on; from a network listener that verifier is always the configured one and the outcome (state and reply) is identical for both values of client_spec.always_auth_pass; over every history without logins on the internal listener no session ever holds the always-pass verifier. With the HeartBeats scope on, a ping with a key that is not accepted leaves the whole state (lastPing included) unchanged and is answered Pong{Error}; the session is not closed by it. A work connection stays open (pooled) only if its run id names a live session, the verifier used accepts it and the pool has room; otherwise it is closed and the state is unchanged. Every sequence of refused first messages of any length leaves the server state literally unchanged; accepted logins / work connections touch no session with another run id. OIDC: a key is accepted iff it parses, is signed by a key the provider publishes and its claims pass the checks auth.NewTokenVerifier configures (issuer unless skipIssuerCheck, configured audience among aud unless none is configured, exp / nbf unless skipExpiryCheck); sessions, heartbeats (scope on) and network work connections (scope on) need such a token, the latter two with a subject some accepted login in the history put into subjectsFromLogin. ssh gateway: with authorizedKeysFile configured the handshake succeeds only for a client that proves a key listed in the file as read at that moment, a client that fails it changes nothing, and over every history of network events and ssh tunnels no session holds the always-pass verifier unless such a client connected; without authorizedKeysFile the virtual client does not claim the exemption and a tunnel comes up only with the right --token. Kernel-checked, axioms propext/Quot.sound only. Tied per run by 6k (quick) operations against a real frps, incl. the real go-oidc verifier and the real ssh gateway.",
+        "technique": "Lean 4 model of the first-message dispatcher and heartbeat handler with abstract key function, the claim-level decision of the OIDC verifier (signature abstract) and the ssh tunnel gateway as the only producer of internal connections; theorems for all states, messages, plugin behaviours, and by induction over all event histories / refused bursts of any length / timed histories (clock, published keys and go-oidc's key cache changing between messages) / system histories of network events and ssh tunnels; differential correspondence against a real server.Service driven as a raw network peer over five transports and the internal listener, as a real OIDC client of an in-process provider, and as a real ssh client of the gateway",
+        "text": "Proof: a login is answered with success and a session appears only if the verifier RegisterControl selected accepted the login the plugins handed on; from a network listener that verifier is always the configured one and the outcome (state and reply) is identical for both values of client_spec.always_auth_pass; over every history without logins on the internal listener no session ever holds the always-pass verifier. With the HeartBeats scope on, a ping with a key that is not accepted leaves the whole state (lastPing included) unchanged and is answered Pong{Error}; the session is not closed by it. A work connection stays open (pooled) only if its run id names a live session, the verifier used accepts it and the pool has room; otherwise it is closed and the state is unchanged. Every sequence of refused first messages of any length leaves the server state literally unchanged; accepted logins / work connections touch no session with another run id. OIDC: a key is accepted iff it parses, is signed by a key the provider publishes and its claims pass the checks auth.NewTokenVerifier configures (issuer unless skipIssuerCheck, configured audience among aud unless none is configured, exp / nbf unless skipExpiryCheck); sessions, heartbeats (scope on) and network work connections (scope on) need such a token, the latter two with a subject some accepted login in the history put into subjectsFromLogin. Time: every message is judged at its own moment - clock and the keys the provider publishes then, plus the keys go-oidc has cached; the answer to a login depends on nothing of the server's state, the answer to a heartbeat / work connection only on the session's verifier kind, the pool's room and which subjects have logged in; over every timed history a token that is not valid at that moment (expired; signed by a key neither cached nor published, e.g. one the provider published at no moment of the history) is refused on all three paths and nothing changes, although the same token may have been accepted any number of times before; the key cache only ever holds keys the provider published. A user connection is joined only with a connection from the pool, and over every history a connection is in a pool only through a work connection the server accepted in the state of that moment. ssh gateway: with authorizedKeysFile configured the handshake succeeds only for a client that proves a key listed in the file as read at that moment, a client that fails it changes nothing, and over every history of network events and ssh tunnels no session holds the always-pass verifier unless such a client connected; without authorizedKeysFile the virtual client does not claim the exemption and a tunnel comes up only with the right --token. Kernel-checked, axioms propext/Quot.sound only. Tied per run by 8k (quick) operations against a real frps, incl. the real go-oidc verifier under key rotation and passing time, the real ssh gateway, and sieges of 64-319 consecutive refused operations.",
         "note": "Finding (known, witness theorem workconn_scope_witness): RegisterWorkConn verifies with the SESSION's verifier, so a work connection from a network listener naming the run id of an ssh-gateway (always-pass) session is pooled without a key even with the NewWorkConns scope on; repaired model behind AuthGate.workVerifierIsFixed (theorem workconn_scope_fixed), Go patch hooks/C04-fix-workconn-verifier.patch. Trusted: Lean kernel; the hand-written model; harness generators; the read-only facts about who reaches RegisterControl with internal = true. Not covered: MD5 / JWT signature / ssh cryptography (abstract predicates, exercised through the real libraries by the engine), timestamp freshness (none exists).",
     }
